@@ -148,7 +148,7 @@ def shard_fn(shard, nshards, seed, tier, exe, ndocs):
 def run(tier, seed):
     bdir = build.build("asan")
     chk = core.Check(PID, tier, seed)
-    sh = core.parallel(shard_fn, seed=seed, tier=tier, exe=bdir + "/jcdrv", ndocs=1600 if tier == "quick" else 20000)
+    sh = core.parallel(shard_fn, seed=seed, tier=tier, exe=bdir + "/jcdrv", ndocs=4000 if tier == "quick" else 20000)
     chk.absorb(sh)
     chk.rule = ("metamorphic: each generated valid document is tokenised and ONE extension is injected at each admissible position (comment in every inter-token gap; single quotes on every "
                 "string/name; trailing comma in every non-empty container; every literal in non-lowercase spellings; each raw control byte in every string/name; leading zero(s) on every number; "
